@@ -14,6 +14,8 @@ declaration's identifier.
   types    EXTENDS chains of length <= 3, component at each level, type/class objects,
            scalar / array-element / nested-component access, inside and outside the module
   include  a declaration brought in by INCLUDE at module or procedure level
+  types_files  a three-level EXTENDS chain over three files and a user file, indexed in every
+           scripted start-up enumeration order of the four files
 """
 from __future__ import annotations
 
@@ -147,8 +149,8 @@ def resolve_modules(mods, edges):
                 raise Invalid("declares a name that is use associated")
             names["x"] = f"M{i}::x"
         names[f"z{i}"] = f"M{i}::z"
-        if default == "private_pubx" and "x" not in names:
-            raise Invalid("public :: x but x is not accessible")
+        if default == "private_pubx" and ("x" not in names or names["x"] == AMBIG):
+            raise Invalid("public :: x but x is not accessible / ambiguous")
         exported = {}
         for n, e in names.items():
             own_x = n == "x" and decl is not None
@@ -384,7 +386,60 @@ def build_include(p):
     return ws
 
 
-BUILDERS = {"shadow": build_shadow, "usegraph": build_usegraph, "types": build_types, "include": build_include}
+def types_files_cases():
+    names = ["tf_a_young.f90", "tf_b_mid.f90", "tf_c_old.f90", "tf_d_user.f90"]
+    for order in itertools.permutations(range(4)):
+        for objkind in ("type", "class"):
+            yield (order, objkind)
+
+
+def build_types_files(p):
+    """EXTENDS chain of three types in three files (+ a user file); the start-up enumeration order is scripted."""
+    order, objkind = p
+    ws = Workspace()
+    f = ws.file("tf_c_old.f90")
+    f.add("module tf_old")
+    f.add("  implicit none")
+    f.add("  type :: fwt")
+    f.add("    integer :: ", D("fwc", "fwt::fwc"))
+    f.add("  end type fwt")
+    f.add("  type :: ft1")
+    f.add("    integer :: ", D("fc1", "ft1::fc1"))
+    f.add("    type(fwt) :: ", D("fw", "ft1::fw"))
+    f.add("  end type ft1")
+    f.add("end module tf_old")
+    f = ws.file("tf_b_mid.f90")
+    f.add("module tf_mid")
+    f.add("  use tf_old")
+    f.add("  implicit none")
+    f.add("  type, extends(ft1) :: ft2")
+    f.add("    integer :: ", D("fc2", "ft2::fc2"))
+    f.add("  end type ft2")
+    f.add("end module tf_mid")
+    f = ws.file("tf_a_young.f90")
+    f.add("module tf_young")
+    f.add("  use tf_mid")
+    f.add("  implicit none")
+    f.add("  type, extends(ft2) :: ft3")
+    f.add("    integer :: ", D("fc3", "ft3::fc3"))
+    f.add("  end type ft3")
+    f.add("end module tf_young")
+    g = ws.file("tf_d_user.f90")
+    g.add("program tf_user")
+    g.add("  use tf_young")
+    g.add("  implicit none")
+    g.add("  type(ft3) :: v" if objkind == "type" else "  class(ft3), allocatable :: v")
+    g.add("  integer :: k")
+    for i in (1, 2, 3):
+        g.add("  v%", U(f"fc{i}", f"ft{i}::fc{i}"), " = 1")
+    g.add("  k = v%", U("fw", "ft1::fw"), "%", U("fwc", "fwt::fwc"))
+    g.add("end program tf_user")
+    ws.file_order = [sorted(ws.files)[i] for i in order]
+    return ws
+
+
+BUILDERS = {"shadow": build_shadow, "usegraph": build_usegraph, "types": build_types, "include": build_include,
+            "types_files": build_types_files}
 
 
 # ================================================================== execution
@@ -409,7 +464,8 @@ def gfortran_ok(ws: Workspace, order):
 
 def compile_order(ws):
     names = list(ws.files)
-    mods = sorted(n for n in names if n.startswith("um")) + [n for n in names if n in ("tmod.f90",)]
+    mods = sorted(n for n in names if n.startswith("um")) + [n for n in names if n in ("tmod.f90",)] + \
+        [n for n in ("tf_c_old.f90", "tf_b_mid.f90", "tf_a_young.f90") if n in names]
     rest = [n for n in names if n not in mods and not n.startswith("decl_inc")]
     return mods + rest
 
@@ -427,6 +483,15 @@ def run_case(job, acc: Acc):
     os.makedirs(root)
     ws.write(root)
     s = Server([])
+    order = getattr(ws, "file_order", None)
+    if order:
+        real = s.srv._get_source_files
+
+        def scripted():
+            rank = {n: i for i, n in enumerate(order)}
+            return sorted(real(), key=lambda q: rank[os.path.basename(q)])
+
+        s.srv._get_source_files = scripted
     s.initialize(root)
     uses = [o for o in ws.occurrences() if not o.decl and o.ent is not None]
     bad = []
@@ -484,34 +549,44 @@ def _user_names(mods, ev, uedges, relax_defaults=False):
     return names
 
 
+def _reach(mods, ev, relaxed):
+    """Per module: the set of x entities it exports (its own and the ones it passes on), under the real
+    accessibility rules or (relaxed) ignoring default PRIVATE of intermediate modules."""
+    k = len(mods)
+    pairs = [(i, j) for i in range(k) for j in range(i)]
+    edges = dict(zip(pairs, ev))
+    out = []
+    for i, (decl, default) in enumerate(mods):
+        r = set()
+        own = {f"M{i}::x"} if decl == "plain" else set()
+        passed = set()
+        for j in range(i):
+            if edges.get((i, j)) in ("all", "only_x"):
+                passed |= out[j]
+        if relaxed or default in ("public", "private_pubx"):
+            r = own | passed
+        out.append(r)
+    return out
+
+
 def _cause(fam, p, o, other):
     """Why the reference resolver and the server may disagree (used by known-finding matchers)."""
     if fam != "usegraph":
         return ""
     mods, ev, uedges, ukind = p
+    strict, relaxed = _reach(mods, ev, False), _reach(mods, ev, True)
+    ux_strict = set().union(*[strict[j] for j, sp in enumerate(uedges) if sp in ("all", "only_x")] or [set()])
+    ux_relaxed = set().union(*[relaxed[j] for j, sp in enumerate(uedges) if sp in ("all", "only_x")] or [set()])
+    uy = set().union(*[strict[j] for j, sp in enumerate(uedges) if sp == "only_y"] or [set()])
     if o.name == "y" and "only_y" in ev and "only_y" not in uedges:
         return "rename_made_in_intermediate_module"
-    if o.name == "y" and "only_y" in uedges and (_user_names(mods, ev, uedges).get("x") == o.ent
-                                                 or _user_names(mods, ev, uedges, relax_defaults=True).get("x") == o.ent):
-        # (the second reach may itself go through a default-PRIVATE intermediary, cf. D05a)
+    if o.name == "y" and "only_y" in uedges and (o.ent in ux_relaxed or (other not in (None, "not_a_declaration") and other in ux_relaxed)):
+        # the renamed entity (or the wrongly chosen one) is also reached by another, unrenamed path -
+        # possibly through a default-PRIVATE intermediary, cf. D05a
         return "rename_lost_when_entity_also_reached_unrenamed"
-    # every x entity that becomes reachable when default PRIVATE of intermediate modules is ignored
-    k = len(mods)
-    pairs = [(i, j) for i in range(k) for j in range(i)]
-    edges = dict(zip(pairs, ev))
-    reach = []
-    for i, (decl, _) in enumerate(mods):
-        r = {f"M{i}::x"} if decl == "plain" else set()
-        for j in range(i):
-            if edges.get((i, j)) in ("all", "only_x"):
-                r |= reach[j]
-        reach.append(r)
-    relaxed = set()
-    for j, spec in enumerate(uedges):
-        if spec in ("all", "only_x"):
-            relaxed |= reach[j]
-    strict = _user_names(mods, ev, uedges).get("x")
-    if o.name == "x" and other in relaxed and other != strict:
+    if o.name == "x" and "only_y" in uedges and o.ent in uy:
+        return "unrenamed_name_lost_when_entity_also_renamed"
+    if o.name == "x" and other in ux_relaxed and other not in ux_strict:
         return "default_private_of_intermediate_module_ignored"
     return ""
 
@@ -536,6 +611,8 @@ def jobs(quick):
         yield ("types", p)
     for p in include_cases():
         yield ("include", p)
+    for p in types_files_cases():
+        yield ("types_files", p)
     for p in usegraph_cases(2, reduced=0):
         yield ("usegraph", p)
     for p in usegraph_cases(3, reduced=(1 if quick else 2)):
